@@ -29,6 +29,7 @@ type c03Case struct {
 	Massive bool          `json:"massive,omitempty"` // WithMassive on both sides (an option both API families accept)
 	Dry     bool          `json:"dry,omitempty"`     // walk: WithDryRun on both sides (names are then validated before anything is visited)
 	PreRoot bool          `json:"preRoot,omitempty"` // mkdir: the root already exists in the target directory
+	Also    string        `json:"also,omitempty"`    // an option that has nothing to do with the operation, on both sides: json | yaml | toml | strict | dry | exts | noiter ("all options accepted by both API families")
 }
 
 var c03Ops = []string{"text", "json", "yaml", "toml", "walk", "walkiter", "mkdir", "verify"}
@@ -51,6 +52,18 @@ func c03Cases(c c03Case) (root, md ops.Case) {
 	md.Doc = []byte(model.Spell(model.Forest{tree}, model.Plain2))
 	for _, cs := range []*ops.Case{&root, &md} {
 		cs.Opts.Branch = c.Branch
+		switch c.Also {
+		case "json", "yaml", "toml":
+			cs.Opts.Encode = c.Also
+		case "strict":
+			cs.Opts.Strict = true
+		case "dry":
+			cs.Opts.DryRun = true
+		case "exts":
+			cs.Opts.Exts, cs.Opts.HasExts = []string{"a", ".go"}, true
+		case "noiter":
+			cs.Opts.NoIter = true
+		}
 		cs.Opts.Massive = c.Massive && c.Op != "walkiter"
 		switch c.Op {
 		case "json", "yaml", "toml":
@@ -212,7 +225,7 @@ func c03Record(col *collector, c c03Case) {
 	if c.Massive {
 		cl = append(cl, "massive-on-both-sides")
 	}
-	col.eval(n >= 4 && (repeats > 0 || nonPre), hash64(c.Root, fmt.Sprint(c.Prog, c.Op, c.Alias, c.Branch, c.Exts, c.Strict, c.Drop, c.Extra, c.PreOps, c.WFail, c.Massive, c.Dry, c.PreRoot)), cl...)
+	col.eval(n >= 4 && (repeats > 0 || nonPre), hash64(c.Root, fmt.Sprint(c.Prog, c.Op, c.Alias, c.Branch, c.Exts, c.Strict, c.Drop, c.Extra, c.PreOps, c.WFail, c.Massive, c.Dry, c.PreRoot, c.Also)), cl...)
 	col.sample(func() any { return map[string]any{"root": c.Root, "prog": c.Prog, "op": c.Op, "tree": tree.String()} })
 }
 
@@ -296,6 +309,21 @@ func c03Gen() *rapid.Generator[c03Case] {
 		tree := model.Merge(f)[0]
 		c := c03Case{Root: tree.Name, Op: op, Alias: rapid.IntRange(0, 3).Draw(t, "alias") == 0, PreRoot: preRoot}
 		c.Dry = op == "walk" && rapid.IntRange(0, 2).Draw(t, "dryWalk") == 0
+		if rapid.IntRange(0, 3).Draw(t, "also") == 0 {
+			// an option the operation has no use for must at least leave the two families in agreement
+			switch op {
+			case "text":
+				c.Also = rapid.SampledFrom([]string{"strict", "exts"}).Draw(t, "alsoOpt")
+			case "json", "yaml", "toml":
+				c.Also = rapid.SampledFrom([]string{"strict", "exts", "noiter"}).Draw(t, "alsoOpt")
+			case "walk", "walkiter":
+				c.Also = rapid.SampledFrom([]string{"json", "yaml", "toml", "strict", "exts", "noiter"}).Draw(t, "alsoOpt")
+			case "mkdir":
+				c.Also = rapid.SampledFrom([]string{"strict", "noiter"}).Draw(t, "alsoOpt")
+			case "verify":
+				c.Also = rapid.SampledFrom([]string{"exts", "noiter", "dry"}).Draw(t, "alsoOpt")
+			}
+		}
 		c.Prog = genProgram(t, tree, rapid.Bool().Draw(t, "shuffle"), rapid.Bool().Draw(t, "repeats"))
 		if rapid.IntRange(0, 2).Draw(t, "withPreOps") == 0 {
 			c.PreOps = rapid.SliceOfN(rapid.SampledFrom(preOpPool), 1, 3).Draw(t, "preOps")
